@@ -32,6 +32,8 @@ def gen_history(seed, i):
     pending = list(comps)
     subs = sub_schemas(defs)
     n_steps = r.randrange(2, 30 if i % 4 else 12)
+    if i % 50 == 7:
+        n_steps = r.randrange(150, 400)   # a generator driving one space with hundreds of calls (progenitor style)
     root_titles = ["RootAlpha", "RootBeta", "RootGamma", "root-delta"]
     r.shuffle(root_titles)
     name_pool = ["Hint", "Other", "Thing", "Item"] + [workloads.sanitize_guess(n) for n in defs]
